@@ -40,7 +40,7 @@ Definition boundB (qy qcb qcr : list Z) : R := tableBound qy + 1.772 * tableBoun
    ew  bound on |eg|
    ec  exact (real) forward coefficient of the source block
    ecq coded forward coefficient (integer, scaled by 8 as DCTISlow leaves it)
-   eq_ quantisation table entry ; edf  bound on |ecq/8 - ec| (coded forward kernel error) *)
-Record eterm : Type := { eg : R; ew : R; ec : R; ecq : Z; eq_ : Z; edf : R }.
+   eq_ quantisation table entry *)
+Record eterm : Type := { eg : R; ew : R; ec : R; ecq : Z; eq_ : Z }.
 
 Definition clampR (z : R) : R := Rmax 0 (Rmin 255 z).
